@@ -249,7 +249,8 @@ class PitchKeys(PartialEvent):
         # and detune for freq) the other two can be calculate (without their
         # modifiers). Only one main key should be used at a time and 'freq'
         # overrides 'midinote' that overrides 'degree' for events.
-        return bi.midicps(self._midinote_from_degree())
+        return bi.midicps(
+            self._midinote_from_degree() + self('ctranspose'))
 
     def _transposed_midinote(self):
         return self('midinote') + self('ctranspose')
